@@ -203,6 +203,24 @@ func c12Call(c C12Case, e *c12Env, arm bool) (opErr error, result string, post c
 		k, v, ok := cur.Get()
 		return nil, fmt.Sprintf("%v=%v,%v", k, v, ok)
 	}
+	// fresh: the cursor is opened with faults off; the faulted call and its retry are the same call on that cursor
+	fresh := func(f func(cur *mast.Cursor) error) (error, string) {
+		if e.cur == nil {
+			e.armed = false
+			cur, err := t.M.Cursor(core.Ctx)
+			if err != nil {
+				return err, ""
+			}
+			e.cur = cur
+			e.armed = arm
+		}
+		if err := f(e.cur); err != nil {
+			return err, ""
+		}
+		k, v, ok := e.cur.Get()
+		return nil, fmt.Sprintf("%v=%v,%v", k, v, ok)
+	}
+	_ = walk
 	panicked = core.Safely("operation under fault", func() error {
 		switch c.Op {
 		case "insert":
@@ -262,11 +280,11 @@ func c12Call(c C12Case, e *c12Env, arm bool) (opErr error, result string, post c
 		case "clone":
 			_, opErr = t.M.Clone(core.Ctx)
 		case "min":
-			opErr, result = walk(func(cur *mast.Cursor) error { return cur.Min(core.Ctx) }, nil)
+			opErr, result = fresh(func(cur *mast.Cursor) error { return cur.Min(core.Ctx) })
 		case "max":
-			opErr, result = walk(func(cur *mast.Cursor) error { return cur.Max(core.Ctx) }, nil)
+			opErr, result = fresh(func(cur *mast.Cursor) error { return cur.Max(core.Ctx) })
 		case "ceil":
-			opErr, result = walk(func(cur *mast.Cursor) error { return cur.Ceil(core.Ctx, w.Pool[c.K%pool]) }, nil)
+			opErr, result = fresh(func(cur *mast.Cursor) error { return cur.Ceil(core.Ctx, w.Pool[c.K%pool]) })
 		case "forward":
 			opErr, result = step(func(cur *mast.Cursor) error { return cur.Forward(core.Ctx) })
 		case "backward":
